@@ -85,7 +85,7 @@ Ffwd(a, r, idx) ==
 
 \* iterations that can be skipped: up to and including the first one whose IN starts after the next edge,
 \* but never the one in which the counter would wrap (the loop leaves through its time-out exit then)
-CounterRoom(a, ctr) == IF a.inc = 1 THEN 255 - ctr ELSE ctr - 1
+CounterRoom(a, ctr) == IF a.inc = 1 THEN 255 - ctr ELSE (ctr - 1) % 256       \* a DEC-type counter of 0 means 256
 Loops(a, r, tp) ==
   IF Ffwd(a, r, tp.idx) /\ tp.next > r[rT]
   THEN Max2(0, Min2(((tp.next - r[rT]) \div a.lt) + 1, CounterRoom(a, r[a.counter + 1])))
